@@ -78,9 +78,17 @@ def check_patch(ctx, s, win, wlo, whi, idx, rnd, pid='C18'):
     U = 2
     ox, oy = rnd.choice([(0, 0), (0, 0), (1, 1), (-3.5, 2), (100, -50), (0.5, 0.5)])
     fr = geom.Frame(U, 1.0, 0.0, 0.0, rnd.randint(0, 5))
-    case = {'shape': s, 'origin': [ox, oy]}
+    if s['k'] == 'polygon' and idx % 2 == 0:
+        # integer-typed vertices (scale 2 makes every half-pixel lattice value an integer) drawn with a fractional origin
+        fr = geom.Frame(U, 2.0, 0.0, 0.0, 0, ints=True)
+        ox, oy = rnd.choice([(0.5, 0.25), (-3.5, 2.75), (0, 0)])
+    case = {'shape': s, 'origin': [ox, oy], 'frame': vars(fr)}
     try:
-        region = geom.build(s, fr)
+        if idx % 4 == 1:
+            # the region was drawn before with other parameters, then assigned the wanted ones: nothing may survive in the artist
+            region = geom.build_via_assign(s, fr, lambda r: r.as_artist(origin=(3, -1)))
+        else:
+            region = geom.build(s, fr)
         with warnings.catch_warnings():
             warnings.simplefilter('ignore')
             patch = region.as_artist(origin=(ox, oy))
@@ -94,7 +102,7 @@ def check_patch(ctx, s, win, wlo, whi, idx, rnd, pid='C18'):
     if not incl:
         model = np.where(model == 2, 2, 1 - model)      # the artist outlines the shape itself, whatever the include flag
     care = (model != 2) & ~near_boundary(s, xs_u.astype(float), ys_u.astype(float), 1e-3 if s['k'] in BEZIER else 0.0)
-    pts = np.column_stack([(xs_u / U - ox) * SCALE, (ys_u / U - oy) * SCALE])
+    pts = np.column_stack([(xs_u / U * fr.scale - ox) * SCALE, (ys_u / U * fr.scale - oy) * SCALE])
     annulus = s['k'] in ('cannulus', 'eannulus', 'rannulus')
     ctx.case((geom.shape_key(s), ox, oy), geom.nontrivial_answers(win))
     if annulus:
